@@ -433,6 +433,9 @@ func c14CLI(c *fw.Ctx, cs c14Case, text string, recs []sm.Record, want []tagTota
 			tags = append(tags, rt)
 			args = append(args, "--tag="+t)
 		}
+		if len(q)%2 == 0 {
+			args = append(args, "--period=2020-01") // a date clause that keeps every record must not loosen the tag clause
+		}
 		sel := c13Apply(recs, []c13Clause{{kind: "tag", recTags: tags}})
 		r := clidrv.Run(home, clidrv.Opts{Now: fixedNow}, append(args, path)...)
 		wantOut := fmt.Sprintf("Total: %d\n(In %d record%s)\n", sm.Total(sel), len(sel), map[bool]string{true: "", false: "s"}[len(sel) == 1])
